@@ -397,7 +397,7 @@ def sample_configs(ck: Check) -> list[dict]:
         if inst.n_items <= (25 if q else 45) and inst.bin_width <= SKY_SPEC_MAX_W:
             pool.append(nm)
     ck.count("bp_instance_pool", len(pool))
-    n_inst, n_seed = (3, 1) if q else (10, 3)
+    n_inst, n_seed = (3, 1) if q else (16, 4)
     for setup in ("rls", "fea"):
         for obj in LEAN_OBJ:
             for enc in (1, 2):
@@ -408,7 +408,7 @@ def sample_configs(ck: Check) -> list[dict]:
     # (2) TSP
     from moptipyapps.tsp.instance import Instance as TInst, ncities_from_tsplib_name
     tpool = [nm for nm in TInst.list_resources(True, False) if ncities_from_tsplib_name(nm) <= (30 if q else 60)]
-    n_inst, n_seed = (4, 1) if q else (min(10, len(tpool)), 3)
+    n_inst, n_seed = (4, 1) if q else (min(12, len(tpool)), 5)
     for setup in ("ea", "fea", "rls"):
         for nm in rng.sample(tpool, n_inst):
             for _ in range(n_seed):
